@@ -15,11 +15,12 @@ from genlib import *
 
 LEAN_MODULES = ["MpirProofs.Props.C13_parse"]
 THEOREMS = ["Mpir.MpfParse." + t for t in """
-    parse_eq_recog parse_iff parse_value
+    parse_eq_recog parse_iff parse_value recog_iff_lang parse_iff_lang set_str_accepts_iff_lang
 """.split()]
 PINS = [("mpf/set_str.c", "mpf_set_str")]
-TRUSTED = ["grammar Mpir.MpfParse.recog (lean/Mpir/Model/MpfParse.lean): a left-to-right description of the language, proved equal to the scanner "
-           "model MpfStr.parse for every byte string and every base; tied to the C by correspondence (fp_accept, fp_set)"]
+TRUSTED = ["grammar Mpir.MpfParse.Lang (inductive: Lang / Body / Mant / First / Expo / NoMarker in lean/Mpir/Model/MpfParse.lean) and its executable "
+           "recogniser Mpir.MpfParse.recog, proved sound and complete for it (recog_iff_lang) and equal to the scanner model MpfStr.parse for every "
+           "byte string and every base (parse_eq_recog); the recogniser is tied to the C by correspondence (fp_accept, fp_set)"]
 ASSUMPTIONS = ["C locale (decimal point '.', isspace = space \\t \\n \\v \\f \\r): the harness never calls setlocale",
                "where the C and the manual disagree the grammar follows the C: (1) after the exponent digits anything that contains no further "
                "marker is ignored ('1e5xyz', '1e5 ', '1@2+3' return 0; '1e5xe' returns -1) although the manual says 0 only 'if the entire string is a "
